@@ -518,9 +518,10 @@ def _layouts(n):
     return {
         "none": {},
         "interior": {"a": interior},
-        "disjoint": {"a": bx(0, 1), "b": bx(n0 - 1, n0)},
-        "touching": {"a": bx(0, 1), "b": bx(1, 2)},
-        "overlapping": {"a": bx(0, 2), "b": bx(1, 3)},
+        # listed in NON-alphabetical order: whatever sorts the names must keep each name with its own box
+        "disjoint": {"b": bx(0, 1), "a": bx(n0 - 1, n0)},
+        "touching": {"b": bx(0, 1), "a": bx(1, 2)},
+        "overlapping": {"b": bx(0, 2), "a": bx(1, 3)},
         "all": {"a": tuple(full)},
     }
 
